@@ -5,7 +5,7 @@ from __future__ import annotations
 import ast
 from typing import Dict, List, Optional, Set, Tuple
 
-from .. import alg
+from .. import alg, guards
 from ..cfg import CFG, Node
 from ..model import AnchorMissing, Repo, attr_chain, norm, walk_no_nested
 
@@ -49,6 +49,12 @@ PATTERN_OWNER_WRITERS = {
 MUT = {"append", "extend", "insert", "pop", "remove", "clear", "sort", "reverse"}
 
 
+def _nm(repo: Repo, ci, name: str):
+    """The method with private helpers inlined and single-use locals of conditions resolved."""
+    from .. import inline
+    return inline.resolve_flags(inline.normalize(repo, ci, repo.own_method(ci, name)))
+
+
 def run(repo: Repo, rep, tier: str):
     rep.count("files_in_scope", repo.consult_all())
     census(repo, rep, "C14")
@@ -79,7 +85,9 @@ def census(repo: Repo, rep, P: str):
         if not sf.modname.startswith("rv"):
             continue
         for qn, fn in _functions(sf):
-            fq = f"{rel}:{qn}"
+            from .. import inline
+            arel, aq = inline.attributed_to(repo, rel, qn)
+            fq = f"{arel}:{aq}"            # a private helper is accounted to the one function that uses it
             for n in walk_no_nested(fn):
                 targets = []
                 if isinstance(n, ast.Assign):
@@ -232,7 +240,7 @@ def _path_tests(g: CFG, path) -> List[Tuple[str, str]]:
 
 def attach_module_rules(repo: Repo, rep, P: str):
     proj = repo.cls("Project", module="rv.project")
-    fn = repo.own_method(proj, "attach_module")
+    fn = _nm(repo, proj, "attach_module")
     rel = proj.file.rel
     construct = f"{rel}:Project.attach_module"
     rep.func("rv.project.Project.attach_module")
@@ -307,9 +315,11 @@ def attach_module_rules(repo: Repo, rep, P: str):
     for nid in sorted(ins_nodes):
         node = g.nodes[nid]
         conds = _dominating_conditions(g, dom, nid)
+        known = _facts(conds)
         need_new = (f"{mp} not in self.modules", "true")
-        foreign_ok = any(("parent is not None" in t and "parent is not self" in t and lab == "false") for t, lab in conds)
-        if need_new in conds:
+        foreign_ok = guards.nnf(ast.parse(f"not ({mp}.parent is not None and {mp}.parent is not self)", mode="eval").body) in known \
+            or {f"{mp}.parent is None"} <= known or {f"{mp}.parent is self"} <= known
+        if need_new[0] in known:
             rep.ok(f"{P}.R3", construct, node.text(), f"guarded by `{need_new[0]}`")
         else:
             rep.violation(f"{P}.R3", construct, node.text(),
@@ -326,8 +336,10 @@ def attach_module_rules(repo: Repo, rep, P: str):
               and "ModuleOwnershipError" in norm(n.ast.exc)]
     if raises:
         conds = _dominating_conditions(g, dom, raises[0].id)
+        known = _facts(conds)
         guard = next((t for t, lab in conds if "parent is not None" in t and "parent is not self" in t and lab == "true"), None)
-        if guard and _conjuncts(guard) == {f"{mp}.parent is not None", f"{mp}.parent is not self"}:
+        own = {f"{mp}.parent is not None", f"{mp}.parent is not self"}
+        if own <= known and (guard is None or guards.facts_text(guard) == own):
             rep.ok(f"{P}.R3", construct, raises[0].text(), "raised exactly for a module owned by another project")
         elif guard:
             rep.violation(f"{P}.R3", construct, f"if {guard}", "the foreign-owner refusal carries an extra condition: some foreign modules are accepted",
@@ -338,6 +350,21 @@ def attach_module_rules(repo: Repo, rep, P: str):
     else:
         rep.violation(f"{P}.R3", construct, "raise ModuleOwnershipError(...)", "foreign modules are no longer refused",
                       f"{rel}:{fn.lineno}")
+
+
+def _names_of(text: str) -> set:
+    try:
+        return {n.id for n in ast.walk(ast.parse(text, mode="eval")) if isinstance(n, ast.Name)}
+    except SyntaxError:
+        return set()
+
+
+def _facts(conds) -> set:
+    """Canonical literals known on a path / under dominating conditions."""
+    out = set()
+    for t, lab in conds:
+        out |= guards.facts_text(t, lab == "true")
+    return out
 
 
 def _conjuncts(text: str) -> set:
@@ -353,7 +380,7 @@ def _conjuncts(text: str) -> set:
 def none_slot_first(repo: Repo, rep, P: str, rule: str):
     """attach_module(None) appends an empty position whatever the list holds: the None test comes before everything else."""
     proj = repo.cls("Project", module="rv.project")
-    fn = repo.own_method(proj, "attach_module")
+    fn = _nm(repo, proj, "attach_module")
     rel = proj.file.rel
     mp = [a.arg for a in fn.args.args if a.arg != "self"][0]
     g = CFG(fn)
@@ -457,36 +484,27 @@ def _check_insert_path(rep, P, construct, rel, g, path, ev, inserts, tests, mp, 
     if len(par) < 1 or norm(par[-1][1]) != "self":
         ok = False
         rep.violation(f"{P}.R2", construct, text, f"a path inserts the module without setting {mp}.parent = self", where)
-    # gap-fill decision
-    gap_tests = [(t, lab) for t, lab in tests if "None in self.modules" in t]
-    if gap_tests:
-        t, lab = gap_tests[0]
-        try:
-            te = ast.parse(t, mode="eval").body
-        except SyntaxError:
-            te = None
-        parts = set()
-        if isinstance(te, ast.BoolOp) and isinstance(te.op, ast.And):
-            parts = {norm(v) for v in te.values}
-        loading = params[1] if len(params) > 1 else "loading"
-        want = {f"not {loading}", "None in self.modules"}
-        if parts != want:
+    # gap-fill decision: the lowest empty position is reused exactly when `not loading and None in self.modules`
+    loading = params[1] if len(params) > 1 else "loading"
+    known = _facts(tests)
+    fill = guards.facts_text(f"not {loading} and None in self.modules")
+    no_fill = guards.facts_text(f"not (not {loading} and None in self.modules)") | {loading, "None not in self.modules"}
+    gap_text = "; ".join(f"{t} [{lab}]" for t, lab in tests if "None in self.modules" in t or loading in _names_of(t))
+    if how == "setitem":
+        if not fill <= known:
             ok = False
-            rep.violation(f"{P}.R2", construct, f"if {t}",
-                          f"an empty position must be reused exactly when `not {loading} and None in self.modules`", where)
-        elif (how == "setitem") != (lab == "true"):
-            ok = False
-            rep.violation(f"{P}.R2", construct, f"if {t}: [{lab}] → {how}",
-                          "gap filling and appending are on the wrong branches", where)
+            rep.violation(f"{P}.R2", construct, f"{gap_text} → {text}",
+                          f"an empty position must be reused exactly when `not {loading} and None in self.modules`; this gap-filling "
+                          f"path does not establish {sorted(fill - known)}", where)
     else:
-        if how == "setitem":
+        if fill <= known:
             ok = False
-            rep.violation(f"{P}.R2", construct, text, "gap filling is not conditioned on an empty position existing", where)
-        else:
+            rep.violation(f"{P}.R2", construct, f"{gap_text} → {text}", "gap filling and appending are on the wrong branches", where)
+        elif not (no_fill & known):
             ok = False
-            rep.violation(f"{P}.R2", construct, text,
-                          "the module is appended without first checking for an empty position (a new module must take "
-                          "the lowest empty position unless loading)", where)
+            rep.violation(f"{P}.R2", construct, f"{gap_text} → {text}",
+                          f"the module is appended on a path that does not exclude `not {loading} and None in self.modules` exactly "
+                          "(a new module must take the lowest empty position unless loading, and only then)", where)
     if ok:
         rep.ok(f"{P}.R2", construct, text, f"{how}: index = insertion position, parent = self")
         rep.sample({"path_tests": tests, "events": [e[2].text() for e in ev]})
@@ -494,7 +512,7 @@ def _check_insert_path(rep, P, construct, rel, g, path, ev, inserts, tests, mp, 
 
 def attach_pattern_rules(repo: Repo, rep, P: str):
     proj = repo.cls("Project", module="rv.project")
-    fn = repo.own_method(proj, "attach_pattern")
+    fn = _nm(repo, proj, "attach_pattern")
     rel = proj.file.rel
     construct = f"{rel}:Project.attach_pattern"
     rep.func("rv.project.Project.attach_pattern")
@@ -580,7 +598,7 @@ def output_rules(repo: Repo, rep, P: str):
         rep.violation(f"{P}.R4", f"{rel}:Project.__init__", "; ".join(body[:3]),
                       "a new project must start with an empty module list and attach Output() first (position 0)",
                       f"{rel}:{init.lineno}")
-    am = repo.own_method(proj, "attach_module")
+    am = _nm(repo, proj, "attach_module")
     src = norm(am)
     if "isinstance(module, Output) and module.index == 0" in src and "self.output = module" in src:
         rep.ok(f"{P}.R4", f"{rel}:Project.attach_module", "if isinstance(module, Output) and module.index == 0: self.output = module",
@@ -648,12 +666,24 @@ def output_rules(repo: Repo, rep, P: str):
                       "the module read at position 0 must be constructed as Output", f"{mr.file.rel}:{pc.lineno}")
     sr = repo.cls("SunVoxReader", module="rv.readers.sunvox")
     sfff = repo.own_method(sr, "process_SFFF")
-    src = " ".join(norm(s) for s in sfff.body)
-    if "index = len(self.object.modules)" in src and "ModuleReader(self.f, index=index)" in src:
+    from .. import inline
+    from ..packed import subst_locals
+    sflat = inline.normalize(repo, sr, sfff, aliases=True)
+    src = " ".join(norm(s) for s in sflat.body)
+    ctor = [c for c in ast.walk(sflat) if isinstance(c, ast.Call) and norm(c.func).split(".")[-1] == "ModuleReader"]
+    idx = None
+    if ctor:
+        idx = next((k.value for k in ctor[0].keywords if k.arg == "index"), ctor[0].args[1] if len(ctor[0].args) > 1 else None)
+        if idx is not None:
+            idx = subst_locals(sflat, idx)
+    if idx is not None and norm(idx) == "len(self.object.modules)":
         rep.ok(f"{P}.R4", f"{sr.file.rel}:SunVoxReader.process_SFFF", "index = len(self.object.modules)",
                "reader passes the position the module will be appended at")
+    elif not ctor or idx is None:
+        rep.inconclusive(f"{P}.R4", f"{sr.file.rel}:SunVoxReader.process_SFFF", src[:140], "construction of the module reader not recognised",
+                         f"{sr.file.rel}:{sfff.lineno}")
     else:
-        rep.violation(f"{P}.R4", f"{sr.file.rel}:SunVoxReader.process_SFFF", src[:140],
+        rep.violation(f"{P}.R4", f"{sr.file.rel}:SunVoxReader.process_SFFF", f"index = {norm(idx)}",
                       "the reader must hand ModuleReader the position the module will occupy", f"{sr.file.rel}:{sfff.lineno}")
 
 
@@ -692,31 +722,62 @@ def note_mod_rules(repo: Repo, rep, P: str):
     else:
         rep.violation(f"{P}.R5", f"{rel}:Note.mod.setter", f"self.module = {norm(store) if store is not None else '?'}",
                       "the note's module number must be the module's index + 1 (0 means no module)", f"{rel}:{s.lineno}")
-    # module_index: None if module == 0 else module - 1
-    ret = [st.value for st in gi.body if isinstance(st, ast.Return)]
+    # module_index: None if module == 0 else module - 1   (conditional expression or if/return form)
+    from .. import inline
+    gi_e = inline.as_expression(inline.normalize(repo, note, gi))
     ok_get = False
-    if ret and isinstance(ret[0], ast.IfExp):
-        ie = ret[0]
+    if isinstance(gi_e, ast.IfExp):
+        ie = gi_e
         try:
-            zero_case = norm(ie.test) == "self.module == 0" and norm(ie.body) == "None"
-            ok_get = zero_case and alg.to_poly(ie.orelse, leaf) == alg.Poly.sym("m") - 1
-            if not ok_get and norm(ie.test) in ("self.module != 0", "self.module"):
+            zero = guards.facts(ie.test, True)
+            if zero == {"self.module == 0"}:
+                ok_get = norm(ie.body) == "None" and alg.to_poly(ie.orelse, leaf) == alg.Poly.sym("m") - 1
+            elif zero in ({"self.module != 0"}, {"self.module"}):
                 ok_get = norm(ie.orelse) == "None" and alg.to_poly(ie.body, leaf) == alg.Poly.sym("m") - 1
         except alg.NotAlgebraic:
             ok_get = False
-    if ok_get:
-        rep.ok(f"{P}.R5", f"{rel}:Note.module_index", norm(ret[0]), "0 → None, m → m − 1 (inverse of the setter)")
+        if ok_get:
+            rep.ok(f"{P}.R5", f"{rel}:Note.module_index", norm(ie), "0 → None, m → m − 1 (inverse of the setter)")
+        else:
+            rep.violation(f"{P}.R5", f"{rel}:Note.module_index", norm(ie),
+                          "module_index must map 0 to None and m to m − 1", f"{rel}:{gi.lineno}")
     else:
-        rep.violation(f"{P}.R5", f"{rel}:Note.module_index", norm(ret[0]) if ret else "?",
-                      "module_index must map 0 to None and m to m − 1", f"{rel}:{gi.lineno}")
-    src = norm(gm)
-    subs = [n for n in walk_no_nested(gm) if isinstance(n, ast.Subscript) and norm(n.value) == "self.project.modules"]
-    if subs and all(norm(x.slice) == "self.module_index" for x in subs) and "self.module_index < len(self.project.modules)" in src \
-            and "self.module_index is None" in src:
-        rep.ok(f"{P}.R5", f"{rel}:Note.mod", "self.project.modules[self.module_index]", "position look-up with None and bounds checks")
-    else:
-        rep.violation(f"{P}.R5", f"{rel}:Note.mod", "; ".join(norm(x) for x in subs) or src[:120],
+        rep.inconclusive(f"{P}.R5", f"{rel}:Note.module_index", norm(gi)[:120],
+                         "module_index is not a two-way conditional on self.module: shape not recognised", f"{rel}:{gi.lineno}")
+    # mod: project.modules[module_index] exactly when module_index is set and in range, None otherwise
+    gmn = inline.normalize(repo, note, gm, aliases=True)
+    g = CFG(gmn)
+    paths = g.paths(g.entry, [g.exit], max_visits=1, limit=2000, labels_excluded=("exc",))
+    bad = []
+    seen_lookup = False
+    in_range = guards.facts_text("self.module_index is not None and self.module_index < len(self.project.modules)")
+    out_atoms = ["self.module_index is None", "self.module_index >= len(self.project.modules)"]
+    out_range = {guards.canon_text(a) for a in out_atoms} | {guards.nnf(ast.parse(" or ".join(out_atoms), mode="eval").body)}
+    for path in paths or []:
+        known = _facts(_path_tests(g, path))
+        rets = [g.nodes[nid].ast for nid, _ in path if g.nodes[nid].kind == "stmt" and isinstance(g.nodes[nid].ast, ast.Return)]
+        val = rets[-1].value if rets else None
+        if isinstance(val, ast.Subscript):
+            if norm(val.value) != "self.project.modules" or norm(val.slice) != "self.module_index":
+                bad.append((norm(val), "looks up something other than project.modules[module_index]"))
+            elif not in_range <= known:
+                bad.append((norm(val), f"look-up without establishing {sorted(in_range - known)}"))
+            else:
+                seen_lookup = True
+        elif val is None or (isinstance(val, ast.Constant) and val.value is None):
+            if not (out_range & known):
+                bad.append(("return None", "None is returned although the module number is set and in range"))
+        else:
+            bad.append((norm(val), "unrecognised result"))
+    if paths is None or (not seen_lookup and not bad):
+        rep.inconclusive(f"{P}.R5", f"{rel}:Note.mod", norm(gm)[:120], "look-up shape not recognised", f"{rel}:{gm.lineno}")
+    elif bad and all(w == "unrecognised result" for _, w in bad):
+        rep.inconclusive(f"{P}.R5", f"{rel}:Note.mod", "; ".join(t for t, _ in bad), "result expression not recognised", f"{rel}:{gm.lineno}")
+    elif bad:
+        rep.violation(f"{P}.R5", f"{rel}:Note.mod", "; ".join(f"{t}: {w}" for t, w in bad),
                       "Note.mod must resolve to project.modules[module_index] (None when unset / out of range)", f"{rel}:{gm.lineno}")
+    else:
+        rep.ok(f"{P}.R5", f"{rel}:Note.mod", "self.project.modules[self.module_index]", "position look-up with None and bounds checks")
     if "ModuleOwnershipError" in norm(s) and f"{sp}.parent is None" in norm(s):
         rep.ok(f"{P}.R5", f"{rel}:Note.mod.setter", f"if {sp}.parent is None: raise ModuleOwnershipError", nontrivial=False)
     else:
@@ -740,12 +801,16 @@ def note_mod_rules(repo: Repo, rep, P: str):
 def entry_points(repo: Repo, rep, P: str):
     proj = repo.cls("Project", module="rv.project")
     rel = proj.file.rel
-    nm = repo.own_method(proj, "new_module")
-    if "self.attach_module(mod)" in norm(nm):
+    nm = _nm(repo, proj, "new_module")
+    from ..packed import single_defs, resolve_names
+    ctor = next((a.arg for a in nm.args.args if a.arg != "self"), None)
+    defs = single_defs(nm)
+    attached = [resolve_names(c.args[0], defs) for c in ast.walk(nm) if isinstance(c, ast.Call) and norm(c.func) == "self.attach_module" and c.args]
+    if any(isinstance(a, ast.Call) and isinstance(a.func, ast.Name) and a.func.id == ctor for a in attached):
         rep.ok(f"{P}.R2", f"{rel}:Project.new_module", "self.attach_module(mod)", "goes through attach_module")
     else:
         rep.violation(f"{P}.R2", f"{rel}:Project.new_module", norm(nm)[:120], "new_module must attach through attach_module", f"{rel}:{nm.lineno}")
-    ia = repo.own_method(proj, "__iadd__")
+    ia = _nm(repo, proj, "__iadd__")
     src = norm(ia)
     need = ["self.attach_module(other)", "self.attach_pattern(other)", "return self"]
     missing = [n for n in need if n not in src]
